@@ -36,7 +36,8 @@ Inductive owner := OFile (p : zs) | ONative (name : zs) (k : nkind).
 Record mrec := { m_owner : owner; m_exports : list (nat * nat) }.
 
 Record rstate := {
-  files_cache : list (zs * nat);       (* r.modules: resolved or requested path -> module *)
+  files_cache : list (zs * nat);       (* r.modules: path of a module file -> module *)
+  resolved_cache : list (zs * nat);    (* r.resolved: file-or-directory request path -> module *)
   node_cache : list (zs * nat);        (* r.nodeModules *)
   native_cache : list (zs * nat);      (* r.natives *)
   store : list mrec;                   (* module id = position *)
@@ -48,7 +49,7 @@ Record rstate := {
 }.
 
 Definition init_state : rstate :=
-  {| files_cache := []; node_cache := []; native_cache := []; store := []; compiled := []; counters := []; loader_log := [];
+  {| files_cache := []; resolved_cache := []; node_cache := []; native_cache := []; store := []; compiled := []; counters := []; loader_log := [];
      native_runs := []; events := [] |}.
 
 Fixpoint cache_get (c : list (zs * nat)) (k : zs) : option nat :=
@@ -83,30 +84,33 @@ Variable nat_reg : natives.
 
 Definition new_module (st : rstate) (o : owner) : rstate * nat :=
   let id := length (store st) in
-  ({| files_cache := files_cache st; node_cache := node_cache st; native_cache := native_cache st;
+  ({| files_cache := files_cache st; resolved_cache := resolved_cache st; node_cache := node_cache st; native_cache := native_cache st;
       store := store st ++ [{| m_owner := o; m_exports := [] |}]; compiled := compiled st; counters := counters st;
       loader_log := loader_log st; native_runs := native_runs st; events := events st |}, id).
 
 Definition with_files (st : rstate) (c : list (zs * nat)) : rstate :=
-  {| files_cache := c; node_cache := node_cache st; native_cache := native_cache st; store := store st; compiled := compiled st;
+  {| files_cache := c; resolved_cache := resolved_cache st; node_cache := node_cache st; native_cache := native_cache st; store := store st; compiled := compiled st;
      counters := counters st; loader_log := loader_log st; native_runs := native_runs st; events := events st |}.
 Definition with_node (st : rstate) (c : list (zs * nat)) : rstate :=
-  {| files_cache := files_cache st; node_cache := c; native_cache := native_cache st; store := store st; compiled := compiled st;
+  {| files_cache := files_cache st; resolved_cache := resolved_cache st; node_cache := c; native_cache := native_cache st; store := store st; compiled := compiled st;
+     counters := counters st; loader_log := loader_log st; native_runs := native_runs st; events := events st |}.
+Definition with_resolved (st : rstate) (c : list (zs * nat)) : rstate :=
+  {| files_cache := files_cache st; resolved_cache := c; node_cache := node_cache st; native_cache := native_cache st; store := store st; compiled := compiled st;
      counters := counters st; loader_log := loader_log st; native_runs := native_runs st; events := events st |}.
 Definition with_native (st : rstate) (c : list (zs * nat)) (runs : list (zs * nkind)) : rstate :=
-  {| files_cache := files_cache st; node_cache := node_cache st; native_cache := c; store := store st; compiled := compiled st;
+  {| files_cache := files_cache st; resolved_cache := resolved_cache st; node_cache := node_cache st; native_cache := c; store := store st; compiled := compiled st;
      counters := counters st; loader_log := loader_log st; native_runs := runs; events := events st |}.
 Definition log_load (st : rstate) (p : zs) : rstate :=
-  {| files_cache := files_cache st; node_cache := node_cache st; native_cache := native_cache st; store := store st; compiled := compiled st;
+  {| files_cache := files_cache st; resolved_cache := resolved_cache st; node_cache := node_cache st; native_cache := native_cache st; store := store st; compiled := compiled st;
      counters := counters st; loader_log := p :: loader_log st; native_runs := native_runs st; events := events st |}.
 Definition add_compiled (st : rstate) (p : zs) : rstate :=
-  {| files_cache := files_cache st; node_cache := node_cache st; native_cache := native_cache st; store := store st; compiled := p :: compiled st;
+  {| files_cache := files_cache st; resolved_cache := resolved_cache st; node_cache := node_cache st; native_cache := native_cache st; store := store st; compiled := p :: compiled st;
      counters := counters st; loader_log := loader_log st; native_runs := native_runs st; events := events st |}.
 Definition with_store (st : rstate) (s : list mrec) (cn : list (zs * nat)) : rstate :=
-  {| files_cache := files_cache st; node_cache := node_cache st; native_cache := native_cache st; store := s; compiled := compiled st;
+  {| files_cache := files_cache st; resolved_cache := resolved_cache st; node_cache := node_cache st; native_cache := native_cache st; store := s; compiled := compiled st;
      counters := cn; loader_log := loader_log st; native_runs := native_runs st; events := events st |}.
 Definition log_event (st : rstate) (who req : zs) (o : Z * nat * list (nat * nat)) : rstate :=
-  {| files_cache := files_cache st; node_cache := node_cache st; native_cache := native_cache st; store := store st; compiled := compiled st;
+  {| files_cache := files_cache st; resolved_cache := resolved_cache st; node_cache := node_cache st; native_cache := native_cache st; store := store st; compiled := compiled st;
      counters := counters st; loader_log := loader_log st; native_runs := native_runs st; events := (who, req, o) :: events st |}.
 
 Definition exports_of (st : rstate) (m : nat) : list (nat * nat) :=
@@ -213,7 +217,8 @@ Fixpoint run_body (st : rstate) (m : nat) (file : zs) (prog : list instr) : rsta
 
 (* forget a failed module under every name *)
 Definition forget (st : rstate) (m : nat) (ps : zs) : rstate :=
-  with_node (with_files st (cache_del (cache_del_val (files_cache st) m) ps)) (cache_del_val (node_cache st) m).
+  with_resolved (with_node (with_files st (cache_del (cache_del_val (files_cache st) m) ps)) (cache_del_val (node_cache st) m))
+                (cache_del_val (resolved_cache st) m).
 
 (* loadModule(path) *)
 Definition load_module (st : rstate) (p : path) : rstate * res :=
@@ -261,19 +266,13 @@ Definition resolve (st : rstate) (curdir : path) (req : zs) : rstate * res :=
   let p := pjoin start req in
   let ps := render p in
   if is_file_or_dir_path req then
-    match cache_get (files_cache st) ps with
+    match cache_get (resolved_cache st) ps with
     | Some m => (st, ROk m)
     | None =>
-      let '(st1, r) := try_cands st (cands_file_or_dir p) in
+      (* loadAsFileOrDirectory(p) works on the string p: the candidates are a function of the rendered path *)
+      let '(st1, r) := try_cands st (cands_file_or_dir (parse ps)) in
       match r with
-      | ROk m =>
-        (* r.modules[p] = module. The code writes unconditionally; the model keeps an entry that nested requires may have
-           written for the same path meanwhile. The candidates are a function of the (static) tree, so that entry is the
-           same module (argued in DESIGN.md, observed by the correspondence run, not proved). *)
-        (match cache_get (files_cache st1) ps with
-         | Some m' => if Nat.eqb m' m then with_files st1 (cache_set (files_cache st1) ps m) else st1
-         | None => with_files st1 (cache_set (files_cache st1) ps m)
-         end, ROk m)
+      | ROk m => (with_resolved st1 (cache_set (resolved_cache st1) ps m), ROk m)     (* r.resolved[p] = module *)
       | other => (st1, other)
       end
     end
@@ -288,11 +287,7 @@ Definition resolve (st : rstate) (curdir : path) (req : zs) : rstate * res :=
       | None =>
         let '(st1, r) := try_cands st0 (cands_node curdir req) in
         match r with
-        | ROk m =>
-          (match cache_get (node_cache st1) nk with
-           | Some m' => if Nat.eqb m' m then with_node st1 (cache_set (node_cache st1) nk m) else st1
-           | None => with_node st1 (cache_set (node_cache st1) nk m)
-           end, ROk m)
+        | ROk m => (with_node st1 (cache_set (node_cache st1) nk m), ROk m)           (* r.nodeModules[key] = module *)
         | other => (st1, other)
         end
       end
